@@ -5,10 +5,13 @@ import (
 	"crypto/ecdsa"
 	"crypto/elliptic"
 	"crypto/rand"
+	"crypto/tls"
 	"crypto/x509"
 	"crypto/x509/pkix"
 	"encoding/pem"
 	"fmt"
+	"google.golang.org/grpc"
+	"google.golang.org/grpc/credentials"
 	"math/big"
 	"net"
 	"time"
@@ -26,6 +29,8 @@ type NetNode struct {
 	Port   int
 	Rig    *SignerRig
 	cancel context.CancelFunc
+	// Its certificate (public) and key.
+	certDER, certPEM, keyPEM []byte
 }
 
 // NetCluster is a set of real Dirk instances that talk to each other the way deployed instances do: each runs the real
@@ -35,6 +40,79 @@ type NetNode struct {
 type NetCluster struct {
 	Nodes map[uint64]*NetNode
 	IDs   []uint64
+	// The cluster's certificate authority (callers of a check's own making are issued certificates by it).
+	ca    *x509.Certificate
+	caKey *ecdsa.PrivateKey
+	caPEM []byte
+}
+
+// CallerCert describes a client certificate issued by the cluster's authority.
+type CallerCert struct {
+	CommonName string
+	DNS        []string
+	// AppendCertOf (optional): the public certificate of this node is presented behind the caller's own (nobody verifies
+	// what follows the leaf).
+	AppendCertOf uint64
+	// AppendDER (optional): further certificates presented behind the caller's own.
+	AppendDER [][]byte
+}
+
+// IssueDER returns a certificate of the cluster's authority for the subject (its public part is all a third party ever
+// sees of it).
+func (c *NetCluster) IssueDER(commonName string) ([]byte, error) {
+	key, err := ecdsa.GenerateKey(elliptic.P256(), rand.Reader)
+	if err != nil {
+		return nil, err
+	}
+	tmpl := &x509.Certificate{SerialNumber: big.NewInt(time.Now().UnixNano()), Subject: pkix.Name{CommonName: commonName}, NotBefore: time.Now().Add(-time.Hour), NotAfter: time.Now().Add(24 * time.Hour),
+		KeyUsage: x509.KeyUsageDigitalSignature, ExtKeyUsage: []x509.ExtKeyUsage{x509.ExtKeyUsageClientAuth}}
+	return x509.CreateCertificate(rand.Reader, tmpl, c.ca, &key.PublicKey, c.caKey)
+}
+
+// DialAs connects to a node's API server as a caller holding the described certificate.
+func (c *NetCluster) DialAs(node uint64, cc CallerCert) (*grpc.ClientConn, error) {
+	key, err := ecdsa.GenerateKey(elliptic.P256(), rand.Reader)
+	if err != nil {
+		return nil, err
+	}
+	tmpl := &x509.Certificate{
+		SerialNumber: big.NewInt(time.Now().UnixNano()),
+		Subject:      pkix.Name{CommonName: cc.CommonName},
+		DNSNames:     cc.DNS,
+		NotBefore:    time.Now().Add(-time.Hour),
+		NotAfter:     time.Now().Add(24 * time.Hour),
+		KeyUsage:     x509.KeyUsageDigitalSignature,
+		ExtKeyUsage:  []x509.ExtKeyUsage{x509.ExtKeyUsageClientAuth},
+	}
+	der, err := x509.CreateCertificate(rand.Reader, tmpl, c.ca, &key.PublicKey, c.caKey)
+	if err != nil {
+		return nil, err
+	}
+	chain := [][]byte{der}
+	if cc.AppendCertOf != 0 {
+		chain = append(chain, c.Nodes[cc.AppendCertOf].certDER)
+	}
+	chain = append(chain, cc.AppendDER...)
+	pool := x509.NewCertPool()
+	pool.AppendCertsFromPEM(c.caPEM)
+	crt := tls.Certificate{Certificate: chain, PrivateKey: key}
+	n := c.Nodes[node]
+	cfg := &tls.Config{RootCAs: pool, ServerName: n.Name, MinVersion: tls.VersionTLS13,
+		GetClientCertificate: func(*tls.CertificateRequestInfo) (*tls.Certificate, error) { return &crt, nil }}
+	return grpc.NewClient(fmt.Sprintf("passthrough:///%s:%d", n.Name, n.Port), grpc.WithTransportCredentials(credentials.NewTLS(cfg)))
+}
+
+// DialAsNode connects to a node's API server with another node's own certificate and key (a genuine peer).
+func (c *NetCluster) DialAsNode(node, as uint64) (*grpc.ClientConn, error) {
+	crt, err := tls.X509KeyPair(c.Nodes[as].certPEM, c.Nodes[as].keyPEM)
+	if err != nil {
+		return nil, err
+	}
+	pool := x509.NewCertPool()
+	pool.AppendCertsFromPEM(c.caPEM)
+	n := c.Nodes[node]
+	cfg := &tls.Config{RootCAs: pool, ServerName: n.Name, MinVersion: tls.VersionTLS13, Certificates: []tls.Certificate{crt}}
+	return grpc.NewClient(fmt.Sprintf("passthrough:///%s:%d", n.Name, n.Port), grpc.WithTransportCredentials(credentials.NewTLS(cfg)))
 }
 
 func mintFor(subject string, ip net.IP, isCA bool, parent *x509.Certificate, signKey *ecdsa.PrivateKey) (*x509.Certificate, *ecdsa.PrivateKey, []byte, []byte, error) {
@@ -80,7 +158,7 @@ func NewNetCluster(ids []uint64) (*NetCluster, error) {
 	if err != nil {
 		return nil, err
 	}
-	c := &NetCluster{Nodes: map[uint64]*NetNode{}, IDs: append([]uint64{}, ids...)}
+	c := &NetCluster{Nodes: map[uint64]*NetNode{}, IDs: append([]uint64{}, ids...), ca: ca, caKey: caKey, caPEM: caPEM}
 	peersMap := map[uint64]string{}
 	for _, id := range ids {
 		ip := fmt.Sprintf("127.0.0.%d", 10+id)
@@ -96,11 +174,12 @@ func NewNetCluster(ids []uint64) (*NetCluster, error) {
 	perms := map[string][]*checker.Permissions{DefaultClient: {{Path: DistWallet, Operations: []string{"All"}}, {Path: "Wallet 1", Operations: []string{"All"}}}}
 	for _, id := range ids {
 		n := c.Nodes[id]
-		_, _, crt, key, err := mintFor(n.Name, net.ParseIP(n.Name), false, ca, caKey)
+		ncert, _, crt, key, err := mintFor(n.Name, net.ParseIP(n.Name), false, ca, caKey)
 		if err != nil {
 			c.Close()
 			return nil, err
 		}
+		n.certDER, n.certPEM, n.keyPEM = ncert.Raw, crt, key
 		ctx, cancel := context.WithCancel(context.Background())
 		n.cancel = cancel
 		snd, err := sendergrpc.New(ctx, sendergrpc.WithName(n.Name), sendergrpc.WithServerCert(crt), sendergrpc.WithServerKey(key), sendergrpc.WithCACert(caPEM))
